@@ -298,9 +298,11 @@ theorem mvn_pdf_eq_exp_log {τ : ℝ} (hτ : 0 < τ) (A : List (List ℝ)) (z : 
   | none => rfl
   | some L => simp [mvnPdfChol_eq_exp_log hτ (cholesky_diagPos hc) z]
 
-/-- PARTIAL: the density is defined (the factorisation succeeds) for every symmetric positive
-definite matrix of dimension `d ≤ 2`.  Missing: `d ≥ 3` (needs the Schur-complement induction for
-the list-based factorisation; covered numerically by the tie against scipy for `d ≤ 6`). -/
+/-- PARTIAL (kept for its explicit `d ≤ 2` minors form): the density is defined (the factorisation
+succeeds) for every symmetric positive definite matrix of dimension `d ≤ 2`.  The full-strength
+statement — every dimension `d`, every symmetric positive definite list matrix, with `L Lᵀ = A` —
+is `C13b.mvn_pdf_defined` / `C13b.cholesky_defined` in `Props/C13b.lean` (Schur-complement induction
+in `Lemmas/CholeskyPD.lean`). -/
 theorem mvn_pdf_defined_partial {τ : ℝ} (z : List ℝ) :
     (∀ a : ℝ, 0 < a → ∃ p, mvnPdf τ [[a]] z = some p) ∧
       (∀ a b c : ℝ, 0 < a → 0 < a * c - b * b → ∃ p, mvnPdf τ [[a, b], [b, c]] z = some p) := by
